@@ -22,6 +22,7 @@ mod encode;
 mod images;
 mod corrupt;
 mod ffi;
+mod randexpr;
 
 use std::collections::HashMap;
 
@@ -81,6 +82,7 @@ fn main() {
         "images" => images::main(&args),
         "corrupt" => corrupt::main(&args),
         "ffi" => ffi::main(&args),
+        "randexpr" => randexpr::main(&args),
         "summary-random" => summary::random_main(&args),
         "repr" => {
             // representability facts (reference encoder) for the characters the bounded models use
